@@ -1,0 +1,33 @@
+//go:build verif
+
+package reader
+
+import (
+	"sync/atomic"
+
+	"github.com/milvus-io/milvus/pkg/mq/msgstream"
+)
+
+var verifYieldFunc atomic.Value // func(point string, pack *msgstream.MsgPack)
+
+// SetVerifYieldFunc registers the harness callback invoked at the scheduling points of the pack pipeline:
+// "max" (before reading the channel clock), "lock" (before taking the channel lock), "send" (before the
+// pack is put on the output queue), "done" (the pack has been handled). The callback may block.
+func SetVerifYieldFunc(f func(point string, pack *msgstream.MsgPack)) { verifYieldFunc.Store(f) }
+
+func verifYield(point string, pack *msgstream.MsgPack) {
+	if f, ok := verifYieldFunc.Load().(func(point string, pack *msgstream.MsgPack)); ok && f != nil {
+		f(point, pack)
+	}
+}
+
+// VerifResetTSManager forgets every channel clock and output queue (the manager is a process-wide singleton).
+func VerifResetTSManager() {
+	m := GetTSManager()
+	for _, k := range m.channelTS2.Keys() {
+		m.channelTS2.Remove(k)
+	}
+	for _, k := range m.targetChannelChans.Keys() {
+		m.targetChannelChans.Remove(k)
+	}
+}
